@@ -306,6 +306,33 @@ world plain-world {
 }
 "#,
     ),
+    (
+        "foo:shared",
+        Some("1.1.0"),
+        r#"package foo:shared@1.1.0;
+interface types {
+  record point { x: s32, y: s32 }
+  variant shape { circle(u32), rect(point), none }
+  type id = u64;
+  enum color { red, green, blue }
+  flags perms { r, w, x }
+  resource handle {
+    constructor(n: u32);
+    get: func() -> u32;
+    merge: static func(a: borrow<handle>, b: borrow<handle>) -> handle;
+  }
+}
+interface log {
+  use types.{id, color};
+  log: func(who: id, msg: string);
+  level: func() -> color;
+  flush: func();
+}
+world logger-world {
+  export log;
+}
+"#,
+    ),
 ];
 
 fn names_of(bytes: &[u8]) -> (Vec<String>, Vec<String>) {
